@@ -66,12 +66,7 @@ def run(ctx):
         ctx.violation(f"spec:{v.name}", {"config": consts, "trace": [(h, s) for h, s in v.trace]})
     if res.violations:
         return
-    small = {"MaxUsers": 2, "MaxVal": 2, "NegFree": 0, "MaxFree": 4}
-    for inv in REACH:
-        (wd / "Reach.cfg").write_text(tlc.mk_cfg(constants=small, invariants=[inv]))
-        r = tlc.run(wd, "FairShareAlg", "Reach.cfg", workers=4)
-        if not r.violations:
-            raise RuntimeError(f"vacuous: {inv} is never violated")
+    _fn.require_reachable(ctx, wd, "FairShareAlg", {"MaxUsers": 2, "MaxVal": 2, "NegFree": 0, "MaxFree": 4}, REACH)
 
     # ---- (2) B3 on the real coroutine ---------------------------------------------------------------------------
     if ctx.quick:
@@ -79,15 +74,11 @@ def run(ctx):
     else:
         universes = [(3, 3, u, -2, 11, off) for u, off in ((1000, 0), (250, 1), (7, 0), (7, 3), (1, 0))] + \
                     [(4, 1, u, -1, 6, 0) for u in (1000, 7, 1)] + [(2, 5, 250, -2, 12, 0)]
-    inputs, seen = [], set()
-    for n, (mu, mv, unit, flo, fhi, off) in enumerate(universes):
-        env = {"FS_MAXUSERS": mu, "FS_MAXVAL": mv, "FS_UNIT": unit, "FS_FREELO": flo, "FS_FREEHI": fhi, "FS_OFF": off,
-               "FS_INPUTS": wd / f"inputs{n}.ndjson"}
-        tlc.evaluate(wd, "FairShareGen", env=env, timeout=1800)
-        for l in (wd / f"inputs{n}.ndjson").read_text().splitlines():
-            if l.strip() and l not in seen:
-                seen.add(l)
-                inputs.append(json.loads(l))
+    (wd / "params.ndjson").write_text("".join(
+        json.dumps({"maxusers": mu, "maxval": mv, "unit": unit, "freelo": flo, "freehi": fhi, "off": off}) + "\n"
+        for mu, mv, unit, flo, fhi, off in universes))
+    tlc.evaluate(wd, "FairShareGen", env={"FS_PARAMS": wd / "params.ndjson", "FS_INPUTS": wd / "inputs.ndjson"}, timeout=1800)
+    inputs = [json.loads(l) for l in dict.fromkeys((wd / "inputs.ndjson").read_text().splitlines()) if l.strip()]  # order kept, repeats dropped
 
     sched = object.__new__(PoolScheduler)
     sched.db = FakeDb()
